@@ -1462,6 +1462,15 @@ func main() {
 	writeIfChanged(filepath.Join(*out, "GenSyncPools.v"), w.Bytes())
 	fmt.Printf("go2v: GenSyncPools.v %d sync.Pools, %d Get / Put sites, %d put wrappers\n", nspd, nsps, nspw)
 
+	// GenC04Reader.v (C04): statement structure of the reader's fragment fetch and every consultation of an
+	// exchange's error channel (c04reader.go)
+	w.Reset()
+	fmt.Fprintf(&w, header, *repo)
+	fmt.Fprintf(&w, "From Verif Require Import Spec.C04ReaderSpec.\n")
+	nc04p, nc04s := root.c04ReaderSafe(&w)
+	writeIfChanged(filepath.Join(*out, "GenC04Reader.v"), w.Bytes())
+	fmt.Printf("go2v: GenC04Reader.v %d reader programs, %d error-channel sites\n", nc04p, nc04s)
+
 	// GenFrameUse.v (C12): uses of a frame relative to its hand-over, per function (frameuse.go)
 	w.Reset()
 	fmt.Fprintf(&w, header, *repo)
